@@ -14,7 +14,8 @@ from common import ImplError, frac, impl_call, s2l, short, unfrac
 
 ID = "C20"
 LEVEL = "proof"
-RULE = ("kinds: eval (prediction matrices up to 5x6, plus a few with 4099 ... 16389 experiments (thorough: up to 65539) "
+RULE = ("size regions: eval with 257 posterior samples in three unequal chains (thorough: 1000), evalio round trips of 7x64 and 3000x3 evaluations "
+        "(thorough: 3x1000, 4099x2) and of Fortran-ordered prediction matrices (what evaluate_model.main hands over).  kinds: eval (prediction matrices up to 5x6, plus a few with 4099 ... 16389 experiments (thorough: up to 65539) "
         "of multiples of 1/64; mostly short dyadic values, chain labellings: one chain / equal / "
         "unequal lengths / interleaved / non-contiguous labels; degenerate 0-row and 0-column matrices; constructor shape "
         "mismatches) through the real ModelEvaluation; evalio (real save_h5 + load_h5 in a temp dir); emap / earr / syn "
@@ -443,6 +444,15 @@ def gen(rng, tier):
         yield _gen_eval(rng, "evalio")
     for n in ([4099, 8195, 16389, 9001] if k == 1 else [4099, 8195, 16389, 9001, 8192, 8193, 12289, 20001, 32771, 65539]):
         yield dict(kind="eval", big=[n, rng.choice([1, 2, 3]), rng.randrange(10 ** 6)])
+    # size regions: many posterior samples (three unequal chains), round trips of big evaluations, Fortran-ordered predictions
+    for n, m in ([(3, 257)] if k == 1 else [(3, 257), (3, 1000), (2, 65)]):
+        yield dict(kind="eval", big=[n, m, rng.randrange(10 ** 6)])
+    for n, m in ([(7, 64), (3000, 3)] if k == 1 else [(7, 64), (3000, 3), (3, 1000), (4099, 2)]):
+        yield dict(kind="evalio", big=[n, m, rng.randrange(10 ** 6)], order=rng.choice(["F", "F", "C"]))
+    for _ in range(12 * k):
+        d = _gen_eval(rng, "evalio")
+        d["order"] = "F"
+        yield d
     for _ in range(90 * k):
         yield _gen_ids(rng, "emap")
     for _ in range(60 * k):
@@ -577,6 +587,9 @@ def _run_eval(desc):
     if len(set(chains)) > 1 and len({chains.count(c) for c in set(chains)}) > 1:
         feats.append("unequal-chain-lengths")
     P = np.array(preds, dtype=float).reshape(n, m)
+    if desc.get("order") == "F":       # what the one producer (evaluate_model.main: predict_viability_all(...).T) hands over
+        P = np.ascontiguousarray(P.T).T
+        feats.append("predictions-F-ordered")
     o = np.array(obs, dtype=float)
     c = np.array(chains, dtype=int)
     nm = np.array(names, dtype=str) if names else np.array([], dtype=str)
@@ -1390,15 +1403,21 @@ def _expand_big(desc):
     preds = [[g.randrange(0, 97) / 64.0 for _ in range(m)] for _ in range(n)]
     obs = [g.randrange(0, 97) / 64.0 for _ in range(n)]
     chains = [j % 2 for j in range(m)] if m > 1 else [0] * m
-    return dict(kind="eval", m=m, preds=preds, obs=obs, chains=chains, names=["s%d" % (i % 7) for i in range(n)],
-                chain_mode="interleaved" if m > 1 else "one", big=desc["big"])
+    mode = "interleaved" if m > 1 else "one"
+    if m >= 64:        # many posterior samples: three chains of unequal length, in chain-major order
+        c1, c2 = m // 4, m // 4 + m // 2 + 1
+        chains = [0 if j < c1 else (1 if j < c2 else 2) for j in range(m)]
+        mode = "unequal"
+    return dict(kind=desc["kind"], m=m, preds=preds, obs=obs, chains=chains, names=["s%d" % (i % 7) for i in range(n)],
+                chain_mode=mode, big=desc["big"], order=desc.get("order"))
 
 
 def run(desc):
     k = desc["kind"]
     if "big" in desc and "preds" not in desc:
         r = _run_eval(_expand_big(desc))
-        r["features"] = list(r["features"]) + ["thousands-of-experiments"]
+        n_, m_, _s = desc["big"]
+        r["features"] = list(r["features"]) + (["thousands-of-experiments"] if n_ >= 1000 else []) + (["posterior-samples>=%d" % (64 if m_ < 257 else 257)] if m_ >= 64 else [])
         return r
     if k in ("eval", "evalio"):
         return _run_eval(desc)
